@@ -6,6 +6,7 @@ package main
 
 import (
 	"fmt"
+	"math"
 	"strings"
 )
 
@@ -16,7 +17,7 @@ type c10tType struct {
 
 var c10tScalars = []c10tType{
 	{"int64", `(int "int64" 64)`}, {"int8", `(int "int8" 8)`}, {"uint8", `(uint "uint8" 8)`}, {"int32", `(int "int32" 32)`}, {"uint16", `(uint "uint16" 16)`},
-	{"string", "(string)"}, {"bool", "(bool)"}, {"interface", "(iface)"},
+	{"string", "(string)"}, {"bool", "(bool)"}, {"interface", "(iface)"}, {"float64", `(float "float64" 64)`}, {"float32", `(float "float32" 32)`}, {"uint64", `(uint "uint64" 64)`},
 }
 
 type c10tVal struct{ src, sx string }
@@ -34,6 +35,13 @@ var c10tVals = []c10tVal{
 	{"-129", "(i -129)"}, {"4294967297", "(i 4294967297)"}, {`"x"`, c10tBytes("x")}, {`"12"`, c10tBytes("12")}, {`""`, c10tBytes("")}, {`"é"`, c10tBytes("é")},
 	{"[1, 2]", "(l (i 1) (i 2))"}, {`[1, "x"]`, "(l (i 1) " + c10tBytes("x") + ")"}, {"[]", "(l)"}, {"[[1], nil]", "(l (l (i 1)) (nil))"}, {"[300, nil]", "(l (i 300) (nil))"},
 	{`["a", "bc"]`, "(l " + c10tBytes("a") + " " + c10tBytes("bc") + ")"},
+	c10tFloat("1.5", 1.5), c10tFloat("-2.75", -2.75), c10tFloat("255.9", 255.9), c10tFloat("0.1", 0.1), c10tFloat("16777217.0", 16777217.0), c10tFloat("1e19", 1e19),
+	c10tFloat("-1e19", -1e19), c10tFloat("1e300", 1e300), c10tFloat("4294967296.5", 4294967296.5), {"16777217", "(i 16777217)"}, {"9007199254740993", "(i 9007199254740993)"},
+	{"[1.5, 2]", "(l (f " + fmt.Sprint(math.Float64bits(1.5)) + ") (i 2))"},
+}
+
+func c10tFloat(src string, f float64) c10tVal {
+	return c10tVal{src, fmt.Sprintf("(f %d)", math.Float64bits(f))}
 }
 
 type c10tCase struct {
@@ -56,7 +64,7 @@ func c10tGen(r *Rand) c10tCase {
 		case t == "string":
 			return strings.HasPrefix(v.src, "\"") || v.src == "65" || v.src == "300" || v.src == "nil"
 		}
-		return v.src == "nil" || (v.src[0] >= '0' && v.src[0] <= '9') || v.src[0] == '-'
+		return v.src == "nil" || (v.src[0] >= '0' && v.src[0] <= '9') || v.src[0] == '-' // numbers: integers and floats convert to every numeric type
 	}
 	pickFor := func(t string) c10tVal {
 		for try := 0; try < 8 && !r.Chance(1, 3); try++ {
@@ -158,5 +166,5 @@ func c10tGen(r *Rand) c10tCase {
 		}
 	}
 	src := strings.Join(lines, "\n")
-	return c10tCase{Src: src, Model: "(" + cont + " (" + strings.Join(ops, " ") + "))", Kind: kind, Got: c10RunTyped(src)}
+	return c10tCase{Src: src, Model: "(" + cont + " (" + strings.Join(ops, " ") + "))", Kind: kind, Got: c10RunTypedWith(src, true)}
 }
